@@ -89,6 +89,18 @@ func runFault() *ShardResult {
 							for _, v := range r.Viol {
 								add(v.Msg, cfg, cur, fp)
 							}
+							if r.Failed > 0 {
+								// second continuation: carry on without retrying the call that failed
+								r2 := core.RunFault(cfg, cur, faultContNoRetry, fp)
+								res.Counts["evaluations"]++
+								res.Counts["transitions"]++
+								res.Counts["traces_validated"]++
+								res.Counts["distinct_nontrivial"]++
+								outcomes[fmt.Sprintf("noretry|%s|%s", r2.HitOp, r2.Outcome)] = true
+								for _, v := range r2.Viol {
+									add("[continuation without retry] "+v.Msg, cfg, cur, fp)
+								}
+							}
 							if len(res.Samples) < 3 && r.Failed > 1 {
 								res.Samples = append(res.Samples, map[string]interface{}{"config": cfg, "ops": core.OpsString(cur), "fault": fp.String(), "failed_step": r.HitOp, "outcome": r.Outcome})
 							}
@@ -129,4 +141,17 @@ func faultCont(m *core.Model, failed *core.Op) []core.Op {
 	ops = append(ops, core.Op{K: "A", Idx: next, Sizes: []int{12}, Gen: 50})
 	ops = append(ops, core.Op{K: "S", Key: "k2", Val: []byte("w")})
 	return ops
+}
+
+// faultContNoRetry: carry on with new work, never re-issuing the call that failed.
+func faultContNoRetry(m *core.Model, failed *core.Op) []core.Op {
+	next := m.Last + 1
+	if m.Last == 0 {
+		next = 1
+	}
+	return []core.Op{
+		{K: "A", Idx: next, Sizes: []int{12}, Gen: 60},
+		{K: "A", Idx: next + 1, Sizes: []int{4}, Gen: 61},
+		{K: "S", Key: "k2", Val: []byte("w")},
+	}
 }
